@@ -2,7 +2,7 @@ CONSTANTS
   Mode = "bytes"
   Alpha = {33, 36, 58, 126, 43, 45, 38, 124, 94, 61, 60, 62, 42, 47, 37}
   MaxLen = 4
-  First = {33, 36, 58, 126, 43, 45, 38, 124, 94, 61, 60, 62, 42, 47, 37}
+  First = {33, 36, 58, 43, 45, 124, 47, 42, 60}
 INIT Init
 NEXT Next
 INVARIANTS Laws Emit
